@@ -37,10 +37,9 @@ namespace celma { namespace log { namespace detail {
 ///    1.15.0, 11.10.2018
 ScopedAttribute::ScopedAttribute( const std::string& name,
    const std::string& value):
-      mAttributeName( name)
+      mAttributeName( name),
+      mAttributeId( Logging::instance().addAttribute( name, value))
 {
-
-   Logging::instance().addAttribute( name, value);
 } // ScopedAttribute::ScopedAttribute
 
 
@@ -51,7 +50,9 @@ ScopedAttribute::ScopedAttribute( const std::string& name,
 ScopedAttribute::~ScopedAttribute()
 {
 
-   Logging::instance().removeAttribute( mAttributeName);
+   // remove exactly the attribute that was added by this object, not an
+   // attribute with the same name that was added afterwards
+   Logging::instance().removeAttributeById( mAttributeId);
 
 } // ScopedAttribute::~ScopedAttribute
 
